@@ -9,6 +9,7 @@ import BevySyncModel.Generated.Http
 import BevySyncModel.Http
 import BevySyncModel.Slice.Comp
 import BevySyncModel.Slice.Panic
+import BevySyncModel.Slice.Skin
 /-! `bsmodel`: runs the executable model definitions on the cases the Rust harness prints, one line
 in, one line out (`ok <id>` / `MISMATCH <id> <what>`).  Lines starting with `#` are ignored.
 Only model files are imported (no proofs, no Mathlib), so this links as a native executable.
@@ -490,6 +491,21 @@ def checkFault (toks : List String) : String :=
     | none => "MISMATCH parse fault steps"
   | _ => "MISMATCH parse fault"
 
+/-! ### skinned-mesh translation (C16): `skin <id> E2U e:u,… U2E u:e,… JOINTS a.b.c EXPECT x.y.z` -/
+def parsePairs (s : String) : List (Nat × Nat) :=
+  if s == "-" then [] else (s.splitOn ",").filterMap (fun p => match p.splitOn ":" with
+    | [a, b] => some (a.toNat!, b.toNat!)
+    | _ => none)
+def lookupPair (l : List (Nat × Nat)) (k : Nat) : Option Nat := (l.find? (fun p => p.1 == k)).map (·.2)
+def parseNats (s : String) : List Nat := if s == "-" then [] else (s.splitOn ".").map String.toNat!
+
+def checkSkin (toks : List String) : String :=
+  match toks with
+  | ["E2U", e2u, "U2E", u2e, "JOINTS", js, "EXPECT", ex] =>
+    let m := Skin.toSkinned (lookupPair (parsePairs u2e)) (Skin.toMapper (P := Nat) (lookupPair (parsePairs e2u)) (parseNats js) [])
+    if m.1 == parseNats ex then "ok" else "MISMATCH skin: model joints differ from the receiver's SkinnedMesh.joints"
+  | _ => "MISMATCH parse skin"
+
 def handle (st : DState) (line : String) : DState × Option String :=
   let line := line.trimAscii.toString
   if line.isEmpty || line.startsWith "#" then (st, none)
@@ -514,6 +530,7 @@ def handle (st : DState) (line : String) : DState × Option String :=
         | "msgdec" => checkMsgDec rest
         | "reflect" => checkReflect rest
         | "fault" => checkFault rest
+        | "skin" => checkSkin rest
         | _ => "MISMATCH unknown line kind"
       (st, some s!"{r} {id}")
     | _ => (st, some "MISMATCH parse ?")
